@@ -267,18 +267,28 @@ func c13(r *core.Run) {
 				o.Fail(p.InstrPos(in), "Get's presence flag is not a constant")
 			}
 		}
+		isSearch := func(v ssa.Value) bool {
+			c, ok := v.(*ssa.Call)
+			return ok && core.Short(core.CalleeName(c)) == "sort.Search"
+		}
+		lenKeys := core.IsLenOf(core.FieldLoad("ConsistentHash.keys"))
 		mod := core.Instrs(get, func(in ssa.Instruction) bool {
 			b, ok := in.(*ssa.BinOp)
-			return ok && b.Op == token.REM && core.IsLenOf(core.FieldLoad("ConsistentHash.keys"))(b.Y)
+			if !ok {
+				return false
+			}
+			if b.Op == token.REM {
+				return isSearch(b.X) && lenKeys(b.Y)
+			}
+			// explicit wrap: the search result compared with len(keys)
+			switch b.Op {
+			case token.EQL, token.GEQ, token.LSS, token.NEQ:
+				return (isSearch(b.X) && lenKeys(b.Y)) || (isSearch(b.Y) && lenKeys(b.X))
+			}
+			return false
 		})
 		if len(mod) == 0 {
-			o.Fail(p.Pos(get.Pos()), "the ring index is not taken modulo len(keys)")
-		}
-		for _, m := range mod {
-			x := m.(*ssa.BinOp).X
-			if c, ok := x.(*ssa.Call); !ok || core.Short(core.CalleeName(c)) != "sort.Search" {
-				o.Fail(p.InstrPos(m), "the wrapped index is not the binary-search result")
-			}
+			o.Fail(p.Pos(get.Pos()), "the binary-search index is neither taken modulo len(keys) nor compared with it (index == len(keys) when the hash is above every key)")
 		}
 	})
 	r.Check("D5/K8/configured-weight", "cache.New and kv.NewStore add every node with its configured weight", func(o *core.O) {
